@@ -47,13 +47,17 @@ Fp(c) == IF c = 0 THEN None ELSE [d |-> c, t |-> "File"]
 Act(a, b, z) == Rec(Fp(a), Fp(b), Fp(z))
 
 (* ---- conflict-copy name for loser content c at path p, given the scan-time trees ---- *)
-\* usable: both sides agree at q - both absent (then q has no planned action) or both already hold exactly the loser
-Free(sa, sb, q, c) == (sa[q] = 0 /\ sb[q] = 0) \/ (sa[q] = c /\ sb[q] = c)
-ConflictK(sa, sb, p, c) ==     \* -1 = outside the universe
+\* usable: q holds nothing but the loser's content c on either side, and its own planned action is not a delete
+\* (one side absent while the recorded common state says q = c)
+Free(sa, sb, q, c, com) ==
+  \/ (sa[q] = 0 /\ sb[q] = 0)
+  \/ (sa[q] = c /\ sb[q] = c)
+  \/ (((sa[q] = c /\ sb[q] = 0) \/ (sa[q] = 0 /\ sb[q] = c)) /\ com[q] # c)
+ConflictK(sa, sb, p, c, com) ==     \* -1 = outside the universe
   IF Depth(p) >= MaxDepth THEN -1
   ELSE IF ~FixCollide THEN 0
-  ELSE IF \E k \in 0..MaxK : Free(sa, sb, Append(p, <<c, k>>), c)
-       THEN CHOOSE k \in 0..MaxK : Free(sa, sb, Append(p, <<c, k>>), c) /\ \A j \in 0..(k - 1) : ~Free(sa, sb, Append(p, <<c, j>>), c)
+  ELSE IF \E k \in 0..MaxK : Free(sa, sb, Append(p, <<c, k>>), c, com)
+       THEN CHOOSE k \in 0..MaxK : Free(sa, sb, Append(p, <<c, k>>), c, com) /\ \A j \in 0..(k - 1) : ~Free(sa, sb, Append(p, <<c, j>>), c, com)
        ELSE -1
 
 (* ---- one planned action applied to the running state st = [a, b, common, nconf, over] ---- *)
@@ -72,7 +76,7 @@ Step(st, p, sa, sb, base) ==
          LET awins == sa[p] >= sb[p]
              losefp == IF awins THEN sb[p] ELSE sa[p]
              winfp  == IF awins THEN sa[p] ELSE sb[p]
-             k == ConflictK(sa, sb, p, losefp)
+             k == ConflictK(sa, sb, p, losefp, st.common)
          IN IF k = -1 THEN [st EXCEPT !.over = TRUE]
             ELSE LET ln == Append(p, <<losefp, k>>)
                      loseLive == IF awins THEN st.b[p] ELSE st.a[p]
@@ -115,7 +119,8 @@ ConflictShapeEdge(a, b, trusted, e, r) == \A p \in AllPaths :
         ln == Append(p, <<lo, 0>>)
     IN /\ r.a[p] = hi /\ r.b[p] = hi
        /\ Depth(p) < MaxDepth =>
-            IF Free(a, b, ln, lo) THEN r.a[ln] = lo /\ r.b[ln] = lo             \* the documented name when it is free
+            IF (a[ln] = 0 \/ a[ln] = lo) /\ (b[ln] = 0 \/ b[ln] = lo) /\ ~(a[ln] # b[ln] /\ (IF trusted THEN e ELSE Empty)[ln] = lo)
+              THEN r.a[ln] = lo /\ r.b[ln] = lo     \* the documented name, when it was free or held only the loser's bytes
             ELSE \E k \in 0..MaxK : r.a[Append(p, <<lo, k>>)] = lo /\ r.b[Append(p, <<lo, k>>)] = lo   \* name taken: any conflict-copy name of p (DESIGN A1)
 
 NoBaseNoDeleteEdge(a, b, r) == \A p \in AllPaths :
